@@ -204,6 +204,28 @@ def r3(prog, ev, rep):
         rep.bad("C02-R3", "%s|branches" % fn, where, "found %d container branches, expected arrays and objects" % found)
 
 
+def _partial_lookup(prog, call):
+    """filter_map(|i| <container>.get(i)[.map(..)]): the closure is a partial lookup by position/key"""
+    args = call.get("args") or []
+    if len(args) != 2:
+        return False
+    c = T.peel(args[1])
+    if c.get("k") != "Closure" or c.get("def") not in prog.bodies:
+        return False
+    body = T.peel(prog.bodies[c["def"]]["thir"]["root"])
+    while body.get("k") == "Block" and not body.get("stmts") and body.get("expr"):
+        body = T.peel(body["expr"])
+    GET = ("core::slice::<impl [T]>::get", "alloc::vec::Vec::<T, A>::get")
+    def is_get(e):
+        e = T.peel(e)
+        return e.get("k") == "Call" and (e.get("fn") in GET)
+    if is_get(body):
+        return True
+    if body.get("k") == "Call" and body.get("fn") == "core::option::Option::<T>::map" and body.get("args") and is_get(body["args"][0]):
+        return True
+    return False
+
+
 def r4(ctx, prog, ev, rep):
     rep.rule("C02-R4", "census: no order-changing call (rev, sort*, dedup*, reverse, rotate, swap, Hash*/BTree* collections, "
              "retain/drain/remove/pop/insert) in the evaluator; cardinality-changing iterator adaptors only in the filter "
@@ -232,6 +254,8 @@ def r4(ctx, prog, ev, rep):
                 m = PL.method_name(x["fn"])
                 if PL.classify(m) == "card-changing":
                     nc += 1
+                    if m == "filter_map" and _partial_lookup(prog, x):
+                        continue    # drops exactly the positions that hold no element; cannot duplicate or reorder
                     if prog.owner_fn(p) not in allowed_owner:
                         rep.bad("C02-R4", "%s|adaptor:%s" % (prog.owner_fn(p), m), T.loc(x),
                                 "cardinality-changing adaptor `%s` outside the filter selector / nodelist algebra can drop or duplicate nodes" % m)
